@@ -222,6 +222,28 @@ pub fn gen_adc(run: &mut Runner, seed: u64, n: u64) {
         v.truncate(len);
         emit(run, "adc", format!("trunclen{len}"), v);
     }
+    // every length 12..=80 ending in the footer of the 16-byte form (only 16 is a packet),
+    // cut from a valid long packet and from random bytes behind a valid header
+    for len in 12..=80usize {
+        for variant in 0..4 {
+            let mac = A16_MACS[rng.gen_range(0..8)].1;
+            let long = AdcFields::plain(mac, 128 + rng.gen_range(0..32), rand_wave(&mut rng, 64)).pack();
+            let mut f = AdcFields::empty16(128 + rng.gen_range(0..32));
+            f.supp = variant != 3;
+            f.keep_bit = variant == 2;
+            f.keep_last = if variant == 1 { 1 } else { 0 };
+            f.base = rng.gen();
+            let short = f.pack();
+            let mut v = long[..len - 4].to_vec();
+            if variant == 0 && len > 16 {
+                for b in v[12..].iter_mut() {
+                    *b = rng.gen();
+                }
+            }
+            v.extend_from_slice(&short[12..16]);
+            emit(run, "adc", format!("midlen{len}"), v);
+        }
+    }
     // the 16-byte form with every flag combination and a few keep_last values
     for supp in [false, true] {
         for kb in [false, true] {
@@ -350,6 +372,17 @@ fn flip(b: &[u8], bits: &[usize]) -> Vec<u8> {
 
 /// All single-bit flips, every burst of length 1..=32 at every offset (both
 /// ends flipped, random interior), sampled pairs/triples.
+fn crc32_ieee(data: &[u8]) -> u32 {
+    let mut c = u32::MAX;
+    for &b in data {
+        c ^= b as u32;
+        for _ in 0..8 {
+            c = if c & 1 == 1 { (c >> 1) ^ 0xEDB8_8320 } else { c >> 1 };
+        }
+    }
+    !c
+}
+
 fn chunk_mutants<R: Rng>(run: &mut Runner, rng: &mut R, base: &[u8], singles: bool, bursts: bool, pairs: usize) {
     let nb = base.len() * 8;
     if singles {
@@ -367,6 +400,51 @@ fn chunk_mutants<R: Rng>(run: &mut Runner, rng: &mut R, base: &[u8], singles: bo
                     }
                 }
                 emit_mut(run, "chunk", format!("burst{len}"), flip(base, &bits));
+            }
+        }
+    }
+    // structured transforms of each stored CRC word (what a differently wired or
+    // "tolerant" comparison would accept): all byte permutations, complement, bit
+    // reversal, rotations, the two words exchanged, and the IEEE polynomial
+    if singles {
+        let n = base.len();
+        for (name, at) in [("hcrc", 16usize), ("pcrc", n - 4)] {
+            let w = u32::from_le_bytes(base[at..at + 4].try_into().unwrap());
+            let mut alts: Vec<(String, u32)> = Vec::new();
+            let b = w.to_le_bytes();
+            for p0 in 0..4 {
+                for p1 in 0..4 {
+                    for p2 in 0..4 {
+                        for p3 in 0..4 {
+                            let mut seen = [false; 4];
+                            for q in [p0, p1, p2, p3] {
+                                seen[q] = true;
+                            }
+                            if seen.iter().all(|&x| x) {
+                                alts.push((format!("{name}perm{p0}{p1}{p2}{p3}"), u32::from_le_bytes([b[p0], b[p1], b[p2], b[p3]])));
+                            }
+                        }
+                    }
+                }
+            }
+            alts.push((format!("{name}not"), !w));
+            alts.push((format!("{name}rev"), w.reverse_bits()));
+            for r in [1u32, 4, 8, 16, 24, 31] {
+                alts.push((format!("{name}rot{r}"), w.rotate_left(r)));
+            }
+            alts.push((format!("{name}zero"), 0));
+            alts.push((format!("{name}ones"), u32::MAX));
+            let other = if at == 16 { n - 4 } else { 16 };
+            alts.push((format!("{name}other"), u32::from_le_bytes(base[other..other + 4].try_into().unwrap())));
+            let region = if at == 16 { &base[..16] } else { &base[20..n - 4] };
+            alts.push((format!("{name}ieee"), crc32_ieee(region)));
+            for (kind, v) in alts {
+                if v == w {
+                    continue;
+                }
+                let mut m = base.to_vec();
+                m[at..at + 4].copy_from_slice(&v.to_le_bytes());
+                emit_mut(run, "chunk", kind, m);
             }
         }
     }
